@@ -150,7 +150,7 @@ def flow_records(pid, proto, tier):
     res = [run_space(b, proto + "." + n, tier) for n in names]
     res.append(aging_space())
     return finish(pid, tier, res,
-                  rule="cases are generated from an abstract description: template of 1..3 field kinds over the kind alphabet (one element per abstract type x encoding class: natural, reduced-size, fixed string/octets, variable length with 1- and 3-octet prefixes, enterprise) x scope split 0..n x 1..3 records x padding 0..3 (pad8: 4..7) x 4 value patterns x template in an earlier / the same message; twosets: two templates and two data sets in either order; allelems: every model element as a one-field template in each encoding class; loaded: the same sweep after the model has been replaced through the real ipfix.LoadExtElements from a generated ipfix.elements file (every element, every fifth re-typed, plus the private ones) - decoding must follow the model in force; counts: N records in a set / N fields in a template / N data sets in a message / N templates in one template set / (IPFIX) N records whose variable-length value differs in length from record to record, N in {1..4, 7..9, 15..18, 31..33, 63..65, 100, 127..129, 255..257, 511..513, 1000, 1023..1025, 4000} (thorough: every N up to 1100 and around 2048, 4096) as far as 65000 octets allow; typeinfo: for every element of the model an RFC 5610 type-information option record (with and without the enterprise-number scope) that claims another data type for it, then a template using the element from the same / another exporter - the record decodes as ordinary option data, the element is still decoded by the collector's model, the model entry is unchanged." + AGING_RULE + " "
+                  rule="cases are generated from an abstract description: template of 1..3 field kinds over the kind alphabet (one element per abstract type x encoding class: natural, reduced-size, fixed string/octets, variable length with 1- and 3-octet prefixes, enterprise) x scope split 0..n x 1..3 records x padding 0..3 (pad8: 4..7) x 4 value patterns x template in an earlier / the same message; twosets: two templates and two data sets in either order; allelems: every model element as a one-field template in each encoding class; loaded: the same sweep after the model has been replaced through the real ipfix.LoadExtElements from a generated ipfix.elements file (every element, every fifth re-typed, plus the private ones) - decoding must follow the model in force; counts: N records in a set / N fields in a template / N data sets in a message / N templates in one template set / (IPFIX) N records whose variable-length value differs in length from record to record / a fixed-length field of N octets / the template id N itself (256 .. 65535), N in {1..4, 7..9, 15..18, 31..33, 63..65, 100, 127..129, 255..257, 511..513, 1000, 1023..1025, 4000} (thorough: every N up to 1100 and around 2048, 4096) as far as 65000 octets allow; typeinfo: for every element of the model an RFC 5610 type-information option record (with and without the enterprise-number scope) that claims another data type for it, then a template using the element from the same / another exporter - the record decodes as ordinary option data, the element is still decoded by the collector's model, the model entry is unchanged." + AGING_RULE + " "
                        "Non-trivial = every executed case (each carries >=1 record); distinct = distinct wire octets (FNV-64 of the message and of the announcing messages).",
                   assumptions=FLOW_ASSUME, t0=t0)
 
